@@ -164,6 +164,7 @@ func checkC05(r *Run) {
 	c.ruleRemainingLength(r6)
 	// ---- R-C05-7
 	c.ruleRejectBeforeWrite(r7)
+	c.ruleDeferredCopy(r7)
 	// ---- R-C05-8
 	c.ruleInboundFields(r8)
 	c.ruleGuardTightness(r8, []string{"pktPublish"})
